@@ -158,13 +158,21 @@ def coq_log(log):
 
 HEADER = 'Require Import PonyV.Base.PyBase PonyV.Model.C33Flush.\nOpen Scope nat_scope.\n'
 
+def repaired():
+    """True when /repo's Entity.flush passes call_before_hooks (proposed_fixes/C33-obj-flush-principal-before-hooks.diff applied):
+    the single-object flush is then compared with the model obj_flush_h instead of obj_flush."""
+    import os
+    try: return 'call_before_hooks' in open(os.path.join(vlib.REPO, 'pony/orm/core.py')).read()
+    except IOError: return False
+
+
 def coq_case(case, obs):
     h = coq_hooks(case)
     st = coq_state(case, obs)
     if case['trigger'][0] == 'flush':
         run = '(match flush %s 50 200 %s with Ok s1 => flush %s 50 200 s1 | r => r end)' % (h, st, h)
     else:
-        run = '(match obj_flush %s 200 %d %s with Some s1 => flush %s 50 200 s1 | None => ErrFuel end)' % (h, case['trigger'][1], st, h)
+        run = '(match ' + ('obj_flush_h' if repaired() else 'obj_flush') + ' %s 200 %d %s with Some s1 => flush %s 50 200 s1 | None => ErrFuel end)' % (h, case['trigger'][1], st, h)
     dbl = [obs['db'].get(str(o)) for o in range(obs['n'])]
     db = clist(['None' if v is None else '(Some %d)' % v for v in dbl])
     return ('(let r := %s in log_eqb (result_log r) %s && match r with Ok s => dbvals_eqb (objs s) 0 %s && Nat.eqb (next s) %d | _ => false end)'
